@@ -1,0 +1,176 @@
+//go:build verif
+
+package graphql
+
+// Machine-checked contracts for the gocv verifier (/verif/DESIGN.md). This file contains comments only:
+// with the build tag off the compiler never sees it, with the tag on it compiles to nothing.
+//
+// numval(s) is the mathematical integer denoted by a decimal string (uninterpreted; strconv is trusted to
+// compute it). isType/asInt/asStr/asBool inspect the dynamic type and payload of an `any`.
+
+// ---------------------------------------------------------------- trusted contracts of dependencies
+
+//@ trusted strconv.Atoi(s) (i, err)
+//@   ensures err == nil ==> i == numval(s)
+//@   ensures err != nil ==> i == 0 || i == MaxInt || i == MinInt
+//@   nopanic
+//@   pure
+//@ trusted strconv.ParseInt(s, base, bits) (i, err)
+//@   ensures err == nil ==> i == numval(s)
+//@   nopanic
+//@   pure
+//@ trusted strconv.ParseUint(s, base, bits) (u, err)
+//@   ensures err == nil ==> u == numval(s)
+//@   nopanic
+//@   pure
+//@ trusted strconv.Itoa(i) (s)
+//@   ensures numval(s) == i
+//@   nopanic
+//@   pure
+//@ trusted strconv.FormatInt(i, base) (s)
+//@   ensures base == 10 ==> numval(s) == i
+//@   nopanic
+//@   pure
+//@ trusted strconv.FormatUint(i, base) (s)
+//@   ensures base == 10 ==> numval(s) == i
+//@   nopanic
+//@   pure
+//@ trusted strconv.FormatBool(b) (s)
+//@   nopanic
+//@   pure
+//@ trusted strconv.FormatFloat(f, fm, prec, bits) (s)
+//@   nopanic
+//@   pure
+//@ trusted strings.EqualFold(s, t) (b)
+//@   nopanic
+//@   pure
+//@ trusted fmt.Errorf(format, a) (err)
+//@   ensures err != nil
+//@   nopanic
+//@   pure
+//@ trusted fmt.Sprintf(format, a) (s)
+//@   nopanic
+//@   pure
+//@ trusted errors.As(err, target) (ok)
+//@   nopanic
+//@   pure
+
+// ---------------------------------------------------------------- C02: input coercion of integers
+
+//@ func newInt32OverflowError [C02]
+//@   ensures res0 != nil
+//@   nopanic
+//@ func newUint32OverflowError [C02]
+//@   ensures res0 != nil
+//@   nopanic
+//@ func newUintSignError [C02]
+//@   ensures res0 != nil
+//@   nopanic
+
+//@ func safeCastInt32 [C02]
+//@   ensures MinInt32 <= i && i <= MaxInt32 ==> res1 == nil && res0 == i
+//@   ensures (i > MaxInt32 || i < MinInt32) ==> res1 != nil
+//@   nopanic
+//@ func safeCastUint32 [C02]
+//@   ensures i <= MaxUint32 ==> res1 == nil && res0 == i
+//@   ensures i > MaxUint32 ==> res1 != nil
+//@   nopanic
+//@ func isSignedInteger [C02]
+//@   nopanic
+
+// "no numeric input is silently changed to a different number": whenever an unmarshaler reports success the
+// mathematical value of its result equals the mathematical value of its input, for every accepted dynamic type.
+
+//@ func UnmarshalInt [C02]
+//@   ensures res1 == nil && (isType(v, "int") || isType(v, "int64")) ==> res0 == asInt(v)
+//@   ensures res1 == nil && (isType(v, "string") || isType(v, "encoding/json.Number")) ==> res0 == numval(asStr(v))
+//@   ensures v == nil ==> res0 == 0 && res1 == nil
+//@   ensures !(v == nil || isType(v, "int") || isType(v, "int64") || isType(v, "string") || isType(v, "encoding/json.Number")) ==> res1 != nil
+//@   nopanic
+//@   replay unmarshalInt.go.tmpl
+//@ func UnmarshalInt64 [C02]
+//@   ensures res1 == nil && (isType(v, "int") || isType(v, "int64")) ==> res0 == asInt(v)
+//@   ensures res1 == nil && (isType(v, "string") || isType(v, "encoding/json.Number")) ==> res0 == numval(asStr(v))
+//@   ensures v == nil ==> res0 == 0 && res1 == nil
+//@   ensures !(v == nil || isType(v, "int") || isType(v, "int64") || isType(v, "string") || isType(v, "encoding/json.Number")) ==> res1 != nil
+//@   nopanic
+//@   replay unmarshalInt.go.tmpl
+//@ func UnmarshalInt32 [C02]
+//@   ensures res1 == nil && (isType(v, "int") || isType(v, "int64")) ==> res0 == asInt(v)
+//@   ensures res1 == nil && (isType(v, "string") || isType(v, "encoding/json.Number")) ==> res0 == numval(asStr(v))
+//@   ensures (isType(v, "int") || isType(v, "int64")) && (asInt(v) > MaxInt32 || asInt(v) < MinInt32) ==> res1 != nil
+//@   ensures (isType(v, "int") || isType(v, "int64")) && MinInt32 <= asInt(v) && asInt(v) <= MaxInt32 ==> res1 == nil
+//@   ensures v == nil ==> res0 == 0 && res1 == nil
+//@   ensures !(v == nil || isType(v, "int") || isType(v, "int64") || isType(v, "string") || isType(v, "encoding/json.Number")) ==> res1 != nil
+//@   nopanic
+//@   replay unmarshalInt.go.tmpl
+//@ func UnmarshalUint [C02]
+//@   ensures res1 == nil && (isType(v, "int") || isType(v, "int64")) ==> res0 == asInt(v)
+//@   ensures res1 == nil && (isType(v, "string") || isType(v, "encoding/json.Number")) ==> res0 == numval(asStr(v))
+//@   ensures (isType(v, "int") || isType(v, "int64")) && asInt(v) < 0 ==> res1 != nil
+//@   ensures (isType(v, "int") || isType(v, "int64")) && asInt(v) >= 0 ==> res1 == nil
+//@   ensures v == nil ==> res0 == 0 && res1 == nil
+//@   ensures !(v == nil || isType(v, "int") || isType(v, "int64") || isType(v, "string") || isType(v, "encoding/json.Number")) ==> res1 != nil
+//@   nopanic
+//@   replay unmarshalInt.go.tmpl
+//@ func UnmarshalUint64 [C02]
+//@   ensures res1 == nil && (isType(v, "int") || isType(v, "int64")) ==> res0 == asInt(v)
+//@   ensures res1 == nil && (isType(v, "string") || isType(v, "encoding/json.Number")) ==> res0 == numval(asStr(v))
+//@   ensures (isType(v, "int") || isType(v, "int64")) && asInt(v) < 0 ==> res1 != nil
+//@   ensures (isType(v, "int") || isType(v, "int64")) && asInt(v) >= 0 ==> res1 == nil
+//@   ensures v == nil ==> res0 == 0 && res1 == nil
+//@   ensures !(v == nil || isType(v, "int") || isType(v, "int64") || isType(v, "string") || isType(v, "encoding/json.Number")) ==> res1 != nil
+//@   nopanic
+//@   replay unmarshalInt.go.tmpl
+//@ func UnmarshalUint32 [C02]
+//@   ensures res1 == nil && (isType(v, "int") || isType(v, "int64")) ==> res0 == asInt(v)
+//@   ensures res1 == nil && (isType(v, "string") || isType(v, "encoding/json.Number")) ==> res0 == numval(asStr(v))
+//@   ensures (isType(v, "int") || isType(v, "int64")) && (asInt(v) < 0 || asInt(v) > MaxUint32) ==> res1 != nil
+//@   ensures (isType(v, "int") || isType(v, "int64")) && 0 <= asInt(v) && asInt(v) <= MaxUint32 ==> res1 == nil
+//@   ensures v == nil ==> res0 == 0 && res1 == nil
+//@   ensures !(v == nil || isType(v, "int") || isType(v, "int64") || isType(v, "string") || isType(v, "encoding/json.Number")) ==> res1 != nil
+//@   nopanic
+//@   replay unmarshalInt.go.tmpl
+//@ func UnmarshalIntID [C02]
+//@   ensures res1 == nil && (isType(v, "int") || isType(v, "int64")) ==> res0 == asInt(v)
+//@   ensures res1 == nil && (isType(v, "string") || isType(v, "encoding/json.Number")) ==> res0 == numval(asStr(v))
+//@   ensures !(isType(v, "int") || isType(v, "int64") || isType(v, "string") || isType(v, "encoding/json.Number")) ==> res1 != nil
+//@   nopanic
+//@   replay unmarshalInt.go.tmpl
+//@ func UnmarshalUintID [C02]
+//@   ensures res1 == nil && (isType(v, "int") || isType(v, "int64") || isType(v, "int32") || isType(v, "uint32") || isType(v, "uint64")) ==> res0 == asInt(v)
+//@   ensures res1 == nil && (isType(v, "string") || isType(v, "encoding/json.Number")) ==> res0 == numval(asStr(v))
+//@   ensures (isType(v, "int") || isType(v, "int64") || isType(v, "int32")) && asInt(v) < 0 ==> res1 != nil
+//@   ensures !(isType(v, "int") || isType(v, "int64") || isType(v, "int32") || isType(v, "uint32") || isType(v, "uint64") || isType(v, "string") || isType(v, "encoding/json.Number")) ==> res1 != nil
+//@   nopanic
+//@   replay unmarshalInt.go.tmpl
+
+// ---------------------------------------------------------------- C02: strings, IDs, booleans, list coercion
+
+//@ func UnmarshalString [C02]
+//@   ensures isType(v, "string") ==> res1 == nil && res0 == asStr(v)
+//@   ensures isType(v, "encoding/json.Number") ==> res1 == nil && res0 == asStr(v)
+//@   ensures isType(v, "int") || isType(v, "int64") ==> res1 == nil && numval(res0) == asInt(v)
+//@   ensures v == nil ==> res1 == nil && res0 == ""
+//@   ensures !(v == nil || isType(v, "string") || isType(v, "encoding/json.Number") || isType(v, "int") || isType(v, "int64") || isType(v, "float64") || isType(v, "bool")) ==> res1 != nil
+//@   nopanic
+//@ func UnmarshalID [C02]
+//@   ensures isType(v, "string") ==> res1 == nil && res0 == asStr(v)
+//@   ensures isType(v, "encoding/json.Number") ==> res1 == nil && res0 == asStr(v)
+//@   ensures isType(v, "int") || isType(v, "int64") ==> res1 == nil && numval(res0) == asInt(v)
+//@   ensures !(v == nil || isType(v, "string") || isType(v, "encoding/json.Number") || isType(v, "int") || isType(v, "int64") || isType(v, "float64") || isType(v, "bool")) ==> res1 != nil
+//@   nopanic
+//@ func UnmarshalBoolean [C02]
+//@   ensures isType(v, "bool") ==> res1 == nil && res0 == asBool(v)
+//@   ensures isType(v, "int") ==> res1 == nil && (res0 <==> asInt(v) != 0)
+//@   ensures v == nil ==> res1 == nil && !res0
+//@   ensures !(v == nil || isType(v, "bool") || isType(v, "int") || isType(v, "string")) ==> res1 != nil
+//@   nopanic
+
+// Single value to list coercion: nil gives the empty list, a list is passed through unchanged, and every JSON
+// scalar/object value v becomes the one-element list [v].
+//@ func CoerceList [C02]
+//@   ensures v == nil ==> len(res0) == 0
+//@   ensures isType(v, "[]any") ==> res0 == v.([]any)
+//@   ensures isType(v, "string") || isType(v, "encoding/json.Number") || isType(v, "bool") || isType(v, "map[string]any") || isType(v, "float64") || isType(v, "int64") || isType(v, "int") ==> len(res0) == 1 && res0[0] == v
+//@   nopanic
